@@ -98,6 +98,9 @@ pub struct Conn {
     /// server time at which the server last finished reading a frame / accepted
     pub last_frame_ms: u64,
     pub close_checked: bool,
+    /// script bytes delivered when the server-side close was first observed:
+    /// nothing beyond this offset can have reached the server
+    pub dead_from: Option<usize>,
 }
 
 #[derive(Clone, Debug, Default)]
@@ -453,6 +456,9 @@ impl<'a> Driver<'a> {
         let newly_closed = st.server_closed && !self.conns[c].server_closed_seen;
         if st.server_closed {
             self.conns[c].server_closed_seen = true;
+            if self.conns[c].dead_from.is_none() {
+                self.conns[c].dead_from = Some(self.conns[c].delivered);
+            }
         }
 
         // resolve frames in order
@@ -474,6 +480,13 @@ impl<'a> Driver<'a> {
             let pending_ok = st.write_blocked; // an answer may still be stuck behind the window
             let client_gone = cs.client_rst;
 
+            if let Some(dead) = cs.dead_from {
+                if f.end > dead && !(f.class == FrameClass::HeaderInvalid && f.start + 24 <= dead) && !matches {
+                    // its last byte never reached the server
+                    self.drop_rest(c);
+                    break;
+                }
+            }
             if after_close_order {
                 // nothing after quit/quitq may be executed
                 if matches {
@@ -683,8 +696,9 @@ impl<'a> Driver<'a> {
                         if pending_ok && next_resp.is_none() {
                             break;
                         }
-                        if closed && next_resp.is_none() && !self.close_is_legit(c) {
-                            // the connection died; whether it executed is open
+                        if closed && next_resp.is_none() {
+                            // the connection died in the very step that completed this
+                            // frame; whether it was executed first is open
                             self.mark_unknown_effects(&f);
                             self.resolve(c, Resolution::Unknown, None);
                             continue;
@@ -705,9 +719,7 @@ impl<'a> Driver<'a> {
                         break;
                     }
                     if closed {
-                        if self.close_is_legit(c) {
-                            // e.g. idle timeout fired exactly when the frame completed,
-                            // or the client had half-closed and the server finished
+                        if self.panic_seen || self.conns[c].client_rst {
                             self.mark_unknown_effects(&f);
                             self.resolve(c, Resolution::Unknown, None);
                             continue;
